@@ -37,6 +37,8 @@ type ChurnCfg struct {
 	// churn starts and read back once each after quiescence: every hand-over then moves
 	// hundreds of keys at once instead of a handful (batching seams, partial transfers)
 	Ballast int `json:"ballast,omitempty"`
+	// Straggler: occasional long stalls (10-40 ms) at notify.apply / stab.read / stab.update
+	Straggler bool `json:"straggler,omitempty"`
 }
 
 func BallastKey(i int) string { return fmt.Sprintf("bl%04d", i) }
@@ -107,6 +109,10 @@ type ChurnResult struct {
 	Setup          string // non-empty: the scenario could not be set up (inconclusive)
 	Watchdog       string
 	StoreEventsFor func(key string) []StoreEvent `json:"-"`
+	// PredRegressions: what the predecessor-pointer monitor saw (see Options.MonitorPred)
+	PredRegressions []PredRegression
+	PredSamples     int64
+	Stragglers      int64
 	KVTimeouts     int64
 	HookLog        []string
 }
@@ -233,7 +239,13 @@ func RunChurnKV(cfg ChurnCfg, scratch string) *ChurnResult {
 	if cfg.RealRPC {
 		mode = RealRPC
 	}
-	lab := New(Options{Mode: mode, Seed: cfg.Seed, HookDelayMaxMicro: cfg.DelayMicro, RecordEvents: true, RecordStores: true, ScratchDir: scratch})
+	lopt := Options{Mode: mode, Seed: cfg.Seed, HookDelayMaxMicro: cfg.DelayMicro, RecordEvents: true, RecordStores: true, ScratchDir: scratch, MonitorPred: !cfg.RealRPC}
+	if cfg.Straggler {
+		lopt.StragglerPoints = map[string]bool{"notify.apply": true, "stab.read": true, "stab.update": true}
+		lopt.StragglerOneIn = 12
+		lopt.StragglerMicro = 40000
+	}
+	lab := New(lopt)
 	defer lab.Close()
 	c := &churnRun{cfg: cfg, lab: lab, leaving: map[uint64]bool{}}
 	if !cfg.SingleWriter {
@@ -651,6 +663,9 @@ func RunChurnKV(cfg ChurnCfg, scratch string) *ChurnResult {
 		res.HookLog = append(res.HookLog, fmt.Sprintf("[%d] %s @%d", e.T, e.Point, e.Node))
 	}
 	res.KVTimeouts = counter(&lab.Calls, "kv-timeouts").Load()
+	res.PredRegressions = lab.PredRegressions()
+	res.Stragglers = lab.Hits("straggler:notify.apply") + lab.Hits("straggler:stab.read") + lab.Hits("straggler:stab.update")
+	res.PredSamples = lab.Hits("stab.done") + lab.Hits("fix.done") + lab.Hits("cp.done") + lab.Hits("notify.applied")
 	return res
 }
 
